@@ -636,3 +636,45 @@ class SentenceNode(Node): pass
 class SentenceWorldNode(SentenceNode, WorldNode): pass
 class SentenceDesignationNode(SentenceNode, DesignationNode): pass
 class SentenceDesignationWorldNode(SentenceDesignationNode, SentenceWorldNode): pass
+# ---------------------------------------------------------------------------
+# Verification hook (add-only). With PYTABLEAUX_VERIF=1 the hash of tableau
+# nodes and branches is a function of (PYTABLEAUX_VERIF_ORDER, order of first
+# use) instead of id(), so that the iteration order of hash-based node sets,
+# i.e. tie-breaking among equally ranked rule targets, is reproducible in a
+# fresh process and can be permuted by changing the seed. With the guard off
+# nothing below runs and hashing stays identity-based.
+import os as _os
+if _os.environ.get('PYTABLEAUX_VERIF') == '1': # pragma: no cover
+
+    class _VerifOrder:
+        'Seeded, replayable hash order for Node/Branch objects.'
+
+        def __init__(self):
+            self.seed = int(_os.environ.get('PYTABLEAUX_VERIF_ORDER', '0'))
+            self.table = {}
+            self.keep = []
+
+        def reset(self, seed = None):
+            'Forget all objects seen so far; optionally change the seed.'
+            if seed is not None:
+                self.seed = int(seed)
+            self.table.clear()
+            self.keep.clear()
+
+        def hash(self, obj):
+            try:
+                return self.table[id(obj)]
+            except KeyError:
+                # keep the object alive so its id() is not reused
+                self.keep.append(obj)
+                value = hash((self.seed, len(self.keep)))
+                self.table[id(obj)] = value
+                return value
+
+    _verif_order = _VerifOrder()
+
+    def _verif_hash(self):
+        return _verif_order.hash(self)
+
+    Node.__hash__ = _verif_hash
+    Branch.__hash__ = _verif_hash
